@@ -184,15 +184,16 @@ Fixpoint seg_words (t : list ((str * str) * Q)) (thr : Q) (prev : str) (rest : l
     else seg_words t thr u r (u :: cur) acc
   end.
 
-Definition segment_utt (t : list ((str * str) * Q)) (thr : Q) (wordsep : str) (utt : str) : result str :=
-  match split_ws (replace_all wordsep [sp] utt) with
+(* the text to segment is a suite of units separated by spaces (fix 1af026b: the word separator of the train text
+   is no longer deleted from it, which lost every unit spelled like that separator) *)
+Definition segment_utt (t : list ((str * str) * Q)) (thr : Q) (utt : str) : result str :=
+  match split_ws utt with
   | [] => Raise IndexError
   | p0 :: rest => Ok (join [sp] (map (@concat char) (seg_words t thr p0 rest [p0] [])))
   end.
 
 Definition segment (test : list str) (s : summary) (k : kind) (thr : Q) (pwb : option Q)
   : result (list str) :=
-  do wordsep <- wordsep_of s;
   (* AbstractSegmenter.__init__ *)
   do _ <- match pwb with
           | Some q => if qlt_b q 0 || qlt_b 1 q then Raise ValueError else Ok tt
@@ -200,7 +201,7 @@ Definition segment (test : list str) (s : summary) (k : kind) (thr : Q) (pwb : o
           end;
   do _ <- (if qlt_b thr 0 || qlt_b 1 thr then Raise ValueError else Ok tt);
   do t <- init_diphones k s pwb;
-  mapM (segment_utt t thr wordsep) test.
+  mapM (segment_utt t thr) test.
 
 (* near ties: a decision whose exact margin is below 1e-9 is not judged, unless
    the float value is exact (0, 1, or a single correctly rounded division
@@ -216,12 +217,12 @@ Definition near (k : kind) (p thr : Q) : bool :=
     end.
 
 Definition near_tie (test : list str) (s : summary) (k : kind) (thr : Q) (pwb : option Q) : bool :=
-  match wordsep_of s, init_diphones k s pwb with
-  | Ok wordsep, Ok t =>
+  match init_diphones k s pwb with
+  | Ok t =>
     existsb (fun utt =>
-               let ph := split_ws (replace_all wordsep [sp] utt) in
+               let ph := split_ws utt in
                existsb (fun d => near k (dget t d) thr) (zip_adj ph)) test
-  | _, _ => false
+  | _ => false
   end.
 
 (* ---------- wire ---------- *)
